@@ -484,6 +484,27 @@ def _wrap_populate(cls, obs):
                 obs.in_observer = False
         r_lat = getattr(self, "r", None)
         ev["r"] = fl(r_lat) if r_lat is not None and np.isscalar(r_lat) else None
+        # radially truncated latent priors: no pool point maps outside the latent contour
+        ev["in_contour"] = True
+        ev["contour_checked"] = False
+        if (n and getattr(self, "latent_prior", None) in ("truncated_gaussian", "uniform_nball", "uniform_nsphere")
+                and r_lat is not None and np.isscalar(r_lat) and np.isfinite(r_lat)
+                and type(self).__name__ == "FlowProposal"   # (augmented / clustering flows are not invertible point-wise)
+                # reparameterisations with auxiliary parameters (angle + radius) re-draw them in the forward pass
+                and getattr(self, "rescaled_dims", None) == obs.model.dims
+                and getattr(self, "flow", None) is not None):
+            obs.in_observer = True
+            try:
+                z = self.forward_pass(smp, rescale=True, compute_radius=False)[0]
+                rad = np.sqrt(np.sum(np.asarray(z, dtype=float) ** 2, axis=-1))
+                lim = float(r_lat) * float(getattr(self, "fuzz", 1.0))
+                ev["in_contour"] = bool(np.all(rad <= lim * (1 + 2e-3) + 1e-3))
+                ev["contour_checked"] = True
+                ev["n_outside_contour"] = int(np.sum(rad > lim * (1 + 2e-3) + 1e-3))
+            except Exception as ex:  # the forward pass is only an observation
+                ev["contour_error"] = f"{type(ex).__name__}: {ex}"[:120]
+            finally:
+                obs.in_observer = False
         obs.em.emit("populate", **ev)
         return r
 
@@ -570,18 +591,42 @@ class FsFaults:
         fbase.shutil = proxy
 
         class FileProxy:
+            """The file object handed to pickle.dump.  It behaves like a buffered writer in
+            the least favourable legal way: the tail (up to 4 KiB) of what has been written
+            stays in the user-space buffer until the next write, flush() or close(), so a
+            kill before the close loses it - which is all a buffered file promises."""
+
+            HOLD = 4096
+
             def __init__(self, f, name):
                 self.f = f
                 self.name = name
+                self.pending = b""
+
+            def _drain(self):
+                if self.pending:
+                    self.f.write(self.pending)
+                    self.pending = b""
 
             def write(self, data):
+                data = bytes(data)
                 if ff.kind is not None:
                     def prefix():
+                        self._drain()
                         n = int(len(data) * (ff.frac or 0.0))
                         self.f.write(data[:n])
                         self.f.flush()
                     ff._maybe_kill("write:" + self.name, write_prefix=prefix)
-                return self.f.write(data)
+                self._drain()
+                k = min(len(data), self.HOLD)
+                self.f.write(data[:len(data) - k])
+                self.f.flush()
+                self.pending = data[len(data) - k:]
+                return len(data)
+
+            def flush(self):
+                self._drain()
+                return self.f.flush()
 
             def __getattr__(self, k):
                 return getattr(self.f, k)
@@ -591,8 +636,9 @@ class FsFaults:
 
             def __exit__(self, *exc):
                 if ff.kind is not None:
-                    self.f.flush()
+                    # bytes still in the buffer are lost by a kill before the close
                     ff._maybe_kill("close:" + self.name)
+                self._drain()
                 return self.f.__exit__(*exc)
 
         def open_proxy(path, mode="r", *a, **k):
